@@ -102,6 +102,18 @@ Theorem C15_resample_bad_grid_refuted :
 Proof. exact resample_bad_grid_witness. Qed.
 Print Assumptions C15_resample_bad_grid_refuted.
 
+(* with the proposed two-line fix (resample validates the grid before assigning the values: [exec_fixed], the tie
+   runs this variant when the tree carries the fix) the invariant holds for ALL call sequences, every retained
+   sample is unaltered after every call, and a refused resample leaves the object untouched *)
+Theorem C15_wellformed_invariant_with_resample_fix :
+  (forall (ops : list op) (s : spectrum), wf s -> Forall op_ok ops ->
+     wf (run_fixed s ops) /\ Forall (fun r => wf (fst r)) (trace_fixed s ops)) /\
+  (forall (s : spectrum) (o : op), wf s -> op_ok o ->
+     forall x y y', lookup (samples (fst (exec_fixed s o))) x = Some y' -> lookup (samples s) x = Some y -> y' = y) /\
+  (forall s g e, snd (resample_fixed s g) = Some e -> fst (resample_fixed s g) = s).
+Proof. exact (conj run_fixed_wf (conj exec_fixed_retained resample_fixed_refused)). Qed.
+Print Assumptions C15_wellformed_invariant_with_resample_fix.
+
 (* ---- (a) integrate is linear in the values, for both rules, any bounds (None = the end of the grid) ---- *)
 Theorem C15_integrate_linear :
   forall (w v u : list Qc) (a b : Qc) (lo hi : option Qc) (r : rule),
@@ -160,13 +172,32 @@ Proof. exact bin_spec. Qed.
 Print Assumptions C15_bin_spec.
 
 (* trapezoid bins of a non-negative spectrum are non-negative: any increasing centres, both end treatments,
-   with or without power preservation. (Simpson: covered by the tie and the oracle only) *)
-Theorem C15_bin_nonnegative_trapz_partial :
+   with or without power preservation *)
+Theorem C15_bin_nonnegative_trapz :
   forall (s : spectrum) (c : list Qc) (e : endsmode) (pp : bool) (b : list Qc),
   wf s -> Forall (fun y => 0 <= y) (value s) -> increasing c ->
   bin s c Trapz e pp = Ok (Some b) -> Forall (fun y => 0 <= y) b.
 Proof. exact bin_trapz_nonneg. Qed.
-Print Assumptions C15_bin_nonnegative_trapz_partial.
+Print Assumptions C15_bin_nonnegative_trapz.
+
+(* Simpson bins of a non-negative, UNIFORMLY SAMPLED spectrum are non-negative for any increasing centres, with or
+   without power preservation: scipy's composite Simpson weights are positive on uniform data, for an odd and for
+   an even number of samples (corrected last interval) *)
+Theorem C15_bin_nonnegative_simpson :
+  forall (s : spectrum) (c : list Qc) (e : endsmode) (pp : bool) (b : list Qc) (h : Qc),
+  wf s -> 0 < h -> uniform_step h (wave s) -> Forall (fun y => 0 <= y) (value s) -> increasing c ->
+  bin s c Simps e pp = Ok (Some b) -> Forall (fun y => 0 <= y) b.
+Proof. exact bin_simps_nonneg. Qed.
+Print Assumptions C15_bin_nonnegative_simpson.
+
+(* without power preservation no uniformity is needed at all: the weights (1,4,1)*width/6 of the chained rule are
+   positive whether or not the node is the bin middle *)
+Theorem C15_bin_nonnegative_simpson_raw_any_grid :
+  forall (s : spectrum) (c : list Qc) (e : endsmode) (b : list Qc),
+  length (wave s) = length (value s) -> Forall (fun y => 0 <= y) (value s) -> increasing c ->
+  raw_bins s c Simps e = Ok b -> Forall (fun y => 0 <= y) b.
+Proof. exact raw_bins_simps_nonneg. Qed.
+Print Assumptions C15_bin_nonnegative_simpson_raw_any_grid.
 
 (* a spectrum that is the straight line al*x + be over a range containing all bin edges/nodes: every raw bin is
    the exact integral of the line over the bin - trapezoid rule for ANY centres, Simpson's rule for uniformly
